@@ -7,6 +7,7 @@ import (
 	"go/types"
 	"math"
 	"math/big"
+	"os"
 	"sort"
 	"strings"
 
@@ -30,15 +31,22 @@ func newVC(P *Program, fn *ssa.Function, spec *FuncSpec) *VC {
 		declared: map[string]bool{}, vals: map[ssa.Value]Term{}, tuples: map[ssa.Value][]Term{},
 		stateSort: map[string]string{}, written: map[*ssa.BasicBlock]map[string]map[string]bool{},
 		lets: map[string]Term{}, usedExterns: map[string]bool{}, usedSpecs: map[string]bool{},
-		funDecls: map[string]bool{}, recInfo: map[string]*recInfo{}}
+		funDecls: map[string]bool{}, recInfo: map[string]*recInfo{}, allocBlock: map[string]*ssa.BasicBlock{}}
 	return vc
 }
 
 // reset clears everything produced by a run, keeping the discovered write sets.
 func (vc *VC) reset() {
 	w := vc.written
+	ab := vc.allocBlock
 	*vc = *newVC(vc.P, vc.fn, vc.spec)
 	vc.written = w
+	// allocation sites found by the discovery pass (value names are stable across passes)
+	for k, b := range ab {
+		if strings.HasPrefix(k, "v_") || strings.HasPrefix(k, "al_") {
+			vc.allocBlock[k] = b
+		}
+	}
 }
 
 // ---------------------------------------------------------------------------
@@ -240,6 +248,9 @@ func (vc *VC) define(v ssa.Value, t Term) {
 	}
 	vc.declare(n, t.Sort)
 	vc.assume(sx("=", n, t.S))
+	if b, ok := vc.allocBlock[t.S]; ok {
+		vc.allocBlock[n] = b
+	}
 	vc.vals[v] = Term{S: n, Sort: t.Sort, T: v.Type(), Loc: t.Loc}
 }
 
@@ -343,6 +354,7 @@ func (vc *VC) run() (err error) {
 		return fmt.Errorf("%s has no body", vc.name)
 	}
 	loops, back := vc.findLoops()
+	vc.loops = loops
 	headerLoop := map[*ssa.BasicBlock]*loopInfo{}
 	for _, li := range loops {
 		headerLoop[li.header] = li
@@ -657,20 +669,80 @@ func (vc *VC) loopHeader(li *loopInfo, b *ssa.BasicBlock, st *State, back map[[2
 				continue
 			}
 			precise := strings.HasPrefix(s, "(Array ")
+			freshOnly := strings.HasPrefix(s, "(Array Int ")
+			if os.Getenv("GOVC_DEBUG") != "" {
+				fmt.Fprintf(os.Stderr, "loop %d writes %s at %v (allocs %v)\n", li.ordinal, k, sortedKeys(wr[k]), len(vc.allocBlock))
+			}
 			for ix := range wr[k] {
-				if ix == "" || !loopInvariantTerm(ix) {
+				if ix == "" {
+					precise, freshOnly = false, false
+					continue
+				}
+				inv := loopInvariantTerm(ix)
+				if !inv {
 					precise = false
 				}
+				if ab, ok := vc.allocBlock[ix]; !(ok && li.blocks[ab]) && !inv {
+					freshOnly = false
+				}
 			}
-			if !precise {
-				vc.havoc(nst, k, s)
+			if precise {
+				// only the loop-invariant locations the body writes are arbitrary
+				parts := splitSortArgs(s)
+				for _, ix := range sortedKeys(wr[k]) {
+					f := vc.fresh("lhv", parts[1])
+					vc.setAt(nst, k, s, ix, f)
+				}
 				continue
 			}
-			// only the loop-invariant locations the body writes are arbitrary
-			parts := splitSortArgs(s)
-			for _, ix := range sortedKeys(wr[k]) {
-				f := vc.fresh("lhv", parts[1])
-				vc.setAt(nst, k, s, ix, f)
+			if freshOnly {
+				// the body writes only objects it allocates itself (and loop-invariant locations):
+				// everything that existed when the loop started keeps its value elsewhere
+				old := vc.get(nst, k, s)
+				nw := vc.havoc(nst, k, s)
+				pre := fmt.Sprintf("pre_L%d", li.ordinal)
+				vc.declarePre(li.ordinal)
+				conds := []string{sx(pre, "x")}
+				for _, ix := range sortedKeys(wr[k]) {
+					if loopInvariantTerm(ix) {
+						conds = append(conds, not(sx("=", "x", ix)))
+					}
+				}
+				vc.assume(fmt.Sprintf("(forall ((x Int)) (! (=> %s (= (select %s x) (select %s x))) :pattern ((select %s x))))", and(conds...), nw, old, nw))
+				continue
+			}
+			vc.havoc(nst, k, s)
+		}
+	}
+	// values computed before the loop refer to objects that existed when it started
+	{
+		pre := fmt.Sprintf("pre_L%d", li.ordinal)
+		seen := map[ssa.Value]bool{}
+		for lb := range li.blocks {
+			for _, in := range lb.Instrs {
+				for _, op := range in.Operands(nil) {
+					if op == nil || *op == nil || seen[*op] {
+						continue
+					}
+					seen[*op] = true
+					if oi, ok := (*op).(ssa.Instruction); ok && li.blocks[oi.Block()] {
+						continue
+					}
+					t, ok := vc.vals[*op]
+					if !ok || t.Loc != nil {
+						continue
+					}
+					switch t.Sort {
+					case "Int":
+						if _, isPtr := types.Unalias((*op).Type()).Underlying().(*types.Pointer); isPtr {
+							vc.declarePre(li.ordinal)
+							vc.assume(sx(pre, t.S))
+						}
+					case "Slice":
+						vc.declarePre(li.ordinal)
+						vc.assume(sx(pre, sx("sl_ref", t.S)))
+					}
+				}
 			}
 		}
 	}
@@ -851,7 +923,7 @@ func (vc *VC) instr(st *State, in ssa.Instruction, guard string) {
 	case *ssa.TypeAssert:
 		vc.typeAssert(st, x, guard)
 	case *ssa.MakeClosure:
-		r := vc.allocRef("closure")
+		r := vc.allocRef("closure_" + x.Name())
 		fnv := x.Fn.(*ssa.Function)
 		vc.declareFun("closure_fn", []string{"Int"}, "Int")
 		vc.assume(sx("=", sx("closure_fn", r), vc.funcConst(vc.P.specName(fnv))))
@@ -865,14 +937,14 @@ func (vc *VC) instr(st *State, in ssa.Instruction, guard string) {
 	case *ssa.MakeSlice:
 		vc.makeSlice(st, x, guard)
 	case *ssa.MakeMap:
-		r := vc.allocRef("map")
+		r := vc.allocRef("map_" + x.Name())
 		m := types.Unalias(x.Type()).Underlying().(*types.Map)
 		hn, hs, _, _ := vc.mapVars(m)
 		ks := vc.ss().sortOf(m.Key())
-		vc.set(st, hn, hs, sx("store", vc.get(st, hn, hs), r, fmt.Sprintf("((as const (Array %s Bool)) false)", ks)))
+		vc.setAt(st, hn, hs, r, fmt.Sprintf("((as const (Array %s Bool)) false)", ks))
 		vc.define(x, Term{S: r, Sort: "Int", T: x.Type()})
 	case *ssa.MakeChan:
-		r := vc.allocRef("chan")
+		r := vc.allocRef("chan_" + x.Name())
 		vc.define(x, Term{S: r, Sort: "Int", T: x.Type()})
 		vc.chanMade(st, x, r)
 	case *ssa.MapUpdate:
@@ -942,12 +1014,12 @@ func (vc *VC) unsupported(st *State, in ssa.Instruction, guard string) {
 
 func (vc *VC) alloc(st *State, x *ssa.Alloc) {
 	elem := x.Type().(*types.Pointer).Elem()
-	r := vc.allocRef("new")
+	r := vc.allocRef("new_" + x.Name())
 	if at, ok := types.Unalias(elem).Underlying().(*types.Array); ok {
 		// array objects live in the element store so they can be sliced
 		name, sortName := vc.elemVar(at.Elem())
 		zero := fmt.Sprintf("((as const (Array Int %s)) %s)", vc.ss().sortOf(at.Elem()), vc.ss().zero(at.Elem()))
-		vc.set(st, name, sortName, sx("store", vc.get(st, name, sortName), r, zero))
+		vc.setAt(st, name, sortName, r, zero)
 		vc.define(x, Term{S: r, Sort: "Int", T: x.Type()})
 		return
 	}
@@ -1159,9 +1231,9 @@ func (vc *VC) convert(st *State, x *ssa.Convert) {
 		vc.define(x, Term{S: sx("str_of_slice", sx("select", vc.get(st, name, sortName), sx("sl_ref", a.S)), sx("sl_off", a.S), sx("sl_len", a.S)), Sort: "Str", T: x.Type()})
 	case fok && fb.Info()&types.IsString != 0 && vc.ss().sortOf(x.Type()) == "Slice":
 		// []byte(string): fresh backing holding the bytes
-		r := vc.allocRef("bytes")
+		r := vc.allocRef("bytes_" + x.Name())
 		name, sortName := vc.elemVar(types.Typ[types.Uint8])
-		vc.set(st, name, sortName, sx("store", vc.get(st, name, sortName), r, sx("sarr", a.S)))
+		vc.setAt(st, name, sortName, r, sx("sarr", a.S))
 		vc.define(x, Term{S: sx("mk-slice", r, "0", sx("slen", a.S), sx("slen", a.S)), Sort: "Slice", T: x.Type()})
 	case tok && tb.Info()&types.IsString != 0 && fok && fb.Info()&types.IsInteger != 0:
 		vc.declareFun("str_of_rune", []string{"Int"}, "Str")
@@ -1271,10 +1343,10 @@ func (vc *VC) makeSlice(st *State, x *ssa.MakeSlice, guard string) {
 	cp := vc.val(x.Cap)
 	et := types.Unalias(x.Type()).Underlying().(*types.Slice).Elem()
 	vc.oblige("nopanic.makeslice", vc.srcLabel(x), vc.nopanicProps(), guard, and(sx("<=", "0", ln.S), sx("<=", ln.S, cp.S)), "make: 0 <= len <= cap", x.Pos())
-	r := vc.allocRef("mk")
+	r := vc.allocRef("mk_" + x.Name())
 	name, sortName := vc.elemVar(et)
 	zero := fmt.Sprintf("((as const (Array Int %s)) %s)", vc.ss().sortOf(et), vc.ss().zero(et))
-	vc.set(st, name, sortName, sx("store", vc.get(st, name, sortName), r, zero))
+	vc.setAt(st, name, sortName, r, zero)
 	vc.define(x, Term{S: sx("mk-slice", r, "0", ln.S, cp.S), Sort: "Slice", T: x.Type()})
 }
 
